@@ -137,6 +137,7 @@ type VerifSnapshot struct {
 	State        string
 	Stash        []int
 	StashTypes   []string
+	StashNewSeq  []int // NewSeqNo (36) of each kept message, 0 when absent
 	ResendEnd    int
 	CurResendEnd int
 	SentReset    bool
@@ -216,6 +217,8 @@ func (v *VerifSession) Snapshot() VerifSnapshot {
 		for _, k := range sn.Stash {
 			mt, _ := rs.messageStash[k].Header.GetString(tagMsgType)
 			sn.StashTypes = append(sn.StashTypes, mt)
+			ns, _ := rs.messageStash[k].Body.GetInt(tagNewSeqNo)
+			sn.StashNewSeq = append(sn.StashNewSeq, ns)
 		}
 	}
 	return sn
